@@ -1100,11 +1100,14 @@ class C13(verif.Spec):
                         "-xds" if any(r.kind == "xdsname" for r in rxs) else "", nuid)
             announced = [f for f in (nets if has_net else nids) if toks]
             if announced:
-                new = int(announced[-1][0])
-                if new != nuid or (has_net and nets):
-                    if nuid != 0:
-                        line_reset = True      # vbi_chsw_reset: the decoder dropped cache and WSS state
-                    nuid = new
+                # several carriers of one frame can announce one after the other (VPS, then packet 8/30 with another
+                # id): every change away from an identified station is a vbi_chsw_reset
+                for ann in announced:
+                    new = int(ann[0])
+                    if new != nuid or (has_net and nets):
+                        if nuid != 0:
+                            line_reset = True      # vbi_chsw_reset: the decoder dropped cache and WSS state
+                        nuid = new
                 if all(x in ("0", "-") for x in announced[-1][:6]) and line_reset:
                     prev = {}                  # everything forgotten (reset with id 0)
             if line_reset:
